@@ -63,7 +63,23 @@ def sym_region(E, ndim, prefix='r', dims=None, units=None, tf=None, assume=None)
     return r, assume
 
 
-def sym_mesh(E, ndim, prefix='m', nsub=0, bc='', assume=None, dims=None, units=None, tf=None):
+def wellcond_mesh(pmin, pmax, cell, tf):
+    """the comparison tolerance is far below one cell: tf*(|pmin_j|+|pmax_j|+min_edge) <= min(cell)/1000
+    (default tf=1e-12: the mesh may sit up to ~1e9 cells away from the origin / be ~1e9 cells long)"""
+    edges = [R(b) - R(a) for a, b in zip(pmin, pmax)]
+    m = edges[0]
+    for e in edges[1:]:
+        m = z3.If(e < m, e, m)
+    out = []
+    for a, b in zip(pmin, pmax):
+        aa = z3.If(R(a) >= 0, R(a), -R(a))
+        bb = z3.If(R(b) >= 0, R(b), -R(b))
+        for c in cell:
+            out.append(R(tf) * (aa + bb + m) * 1000 <= R(c))
+    return out
+
+
+def sym_mesh(E, ndim, prefix='m', nsub=0, bc='', assume=None, dims=None, units=None, tf=None, cellcond=False):
     """Mesh satisfying Inv(Mesh); state parametrised by (pmin, cell, n): pmax := pmin + n*cell, so that
     cell*n == edges holds by construction; subregions by integer lattice coordinates 0 <= a < b <= n."""
     assume = assume if assume is not None else []
@@ -78,6 +94,8 @@ def sym_mesh(E, ndim, prefix='m', nsub=0, bc='', assume=None, dims=None, units=N
         assume += [R(tf) >= 0, R(tf) <= z3.RealVal('1/1000')]
     if not getattr(E, 'no_wellcond', False):
         assume += wellcond(pmin, pmax, tf)
+    if cellcond:
+        assume += wellcond_mesh(pmin, pmax, cell, tf)
     dims = tuple(dims or DIMS[:ndim])
     units = tuple(units or UNITS[:ndim])
     reg = Obj('Region', {'_pmin': Vec(pmin), '_pmax': Vec(pmax), '_dims': dims, '_units': units, '_tolerance_factor': tf})
